@@ -114,6 +114,18 @@ func c20r1(c *Ctx, id string) {
 	res := w.Method("couchbase", "asyncOp", "Resolve")
 	c.need(wait != nil && res != nil, id, "asyncOp.Wait / Resolve")
 	recv, op, errP := wait.Params[0].Name(), wait.Params[1].Name(), wait.Params[2].Name()
+	// the completion signal: the channel field of the operation record (whatever it is called)
+	sigField := ""
+	if at := w.NamedType("couchbase", "asyncOp"); at != nil {
+		if st, ok := at.Underlying().(*types.Struct); ok {
+			for i := 0; i < st.NumFields(); i++ {
+				if _, isCh := st.Field(i).Type().Underlying().(*types.Chan); isCh {
+					sigField = st.Field(i).Name()
+				}
+			}
+		}
+	}
+	c.need(sigField != "", id, "the channel field of asyncOp")
 	h := &Harness{Fn: wait, Bools: []string{errP + "==nil"}, Choices: map[string]int{"select@" + fname(wait): 2}}
 	c.oae(id, fname(wait), wait.Pos(), h, func(st *State, out *Outcome) string {
 		if out.Panicked {
@@ -147,7 +159,7 @@ func c20r1(c *Ctx, id string) {
 			}
 		}
 		sigIdx := 1 - doneIdx
-		if doneIdx < 0 || !strings.Contains(avString(sel.Args[sigIdx]), recv+".signal") {
+		if doneIdx < 0 || !strings.Contains(avString(sel.Args[sigIdx]), recv+"."+sigField) {
 			return "select cases are not ctx.Done() and the completion signal: " + sel.String()
 		}
 		if (choice == doneIdx) != (cancels == 1) || cancels > 1 {
@@ -161,7 +173,7 @@ func c20r1(c *Ctx, id string) {
 	// Resolve only sends on the signal
 	okRes := false
 	allInstrs(res, func(in ssa.Instruction) {
-		if sd, ok := in.(*ssa.Send); ok && strings.HasSuffix(w.Origin(sd.Chan), ".signal") {
+		if sd, ok := in.(*ssa.Send); ok && strings.HasSuffix(w.Origin(sd.Chan), "."+sigField) {
 			okRes = true
 		}
 	})
